@@ -106,25 +106,62 @@ def r2_best_of_population(ctx):
     ctx.check(not bad, "C07.R2", fn.key, "member-of-minimal-objective", "population with objective ranks %s: best_individual %s" % (bad[0][0] if bad else "", bad[0][1] if bad else ""),
               detail="%d weak orderings of populations of size 0..3" % n, loc=fn.loc())
     ctx.count("best_of_population_scenarios", n)
-    # the update component feeds best_individual() of the current population
+    # the update component, on the real population stack (a second population underneath) and the typed store: afterwards
+    # the state's BestIndividual is the old one unless a member of the CURRENT (top) population is strictly better, then a
+    # best member of it; an empty population changes nothing; the populations are untouched
+    import statemodel
+    from c04 import StackModel
+    from collmodel import install
     up = F.method("mahf::components::evaluation::BestIndividualUpdate", "execute", "mahf::components::Component")
-    calls = [(b, t) for b, t in up.body.calls() if t["f"].get("key") == BEST + "::update"]
-    good = len(calls) == 1
-    why = ""
-    if good:
-        e = up.body.expr_of_op(calls[0][1]["args"][1])
-        leaf, cs, _ = origin(e)
-        why = str(cs)
-        names = [c for c in cs if c not in ("deref", "deref_mut", "unwrap", "expect", "as_ref")]
-        good = names[:3] == ["best_individual", "current", "populations"] and leaf == ("arg", 3)
-        recv = up.body.expr_of_op(calls[0][1]["args"][0])
-        l2, cs2, _ = origin(recv)
-        good = good and any(c in ("borrow_mut", "try_borrow_mut") for c in cs2)
-    ctx.check(good, "C07.R2", up.key, "feeds-best-of-current-population", "BestIndividual::update is not fed with current().best_individual() of the state's population stack (%s)" % why, detail=why, loc=up.loc())
-    # and only when the population is non-empty it may skip
-    ini = F.method("mahf::components::evaluation::BestIndividualUpdate", "init", "mahf::components::Component")
-    ins = [t["f"].get("gargs") for b, t in ini.body.calls() if t["f"].get("key") == "mahf::state::registry::StateRegistry::insert"]
-    ctx.check(ins == [[BEST + "<P>"]], "C07.R2", ini.key, "init-inserts-empty-best", "init inserts %s" % ins, loc=ini.loc())
+    POP = "mahf::state::common::Populations"
+    sf = F.field_index(POP, "stack")
+    bad = []
+    n2 = 0
+    for has_best in (False, True):
+        for size in range(0, 3):
+            k = size + (1 if has_best else 0)
+            for order in (weak_orderings(k) if k else [()]):
+                cellv = Agg("adt", BEST, "BestIndividual", [some(ind(size)) if has_best else NONE])
+                store = statemodel.Store(F, levels=1, auto=lambda ty, cellv=cellv: {0: cellv} if ty.startswith(BEST + "<") else None)
+                popsym = Sym("populations", {sf: Sym("stack")})
+                tab = {"mahf::state::State::populations_mut": popsym, "mahf::state::State::populations": popsym}
+
+                def orc(interp, env, f, args, t, bb, path, tab=tab):
+                    k_ = f.get("key", "")
+                    if k_ in tab:
+                        return tab[k_]
+                    if k_.startswith("mahf::state::registry::StateRegistry::") and f.get("name") in ("borrow", "borrow_mut") and ((f.get("cgargs") or f.get("gargs") or [""])[0] or "").startswith(POP + "<"):
+                        return popsym
+                    return TOP
+                it = install(Interp(up.body, chain(orc, store, StackModel(sf), coll_oracle, std_oracle), [Sym("self"), Sym("problem"), Sym("state")], facts=F,
+                                    inline=lambda kk: kk.startswith(POP + "::") or statemodel.inline(kk) or INLINE(kk), max_visits=12))
+                rk = {"o:%d" % i: r for i, r in enumerate(order)}
+                rk["o:below"] = -5        # the population underneath holds an even better individual: it must not be looked at
+                it.init_state = {"rank": rk, "next_vec": 0, "stack": (Vec("below"), Vec("cur")), "heap": {"below": (ind("below"),), "cur": tuple(ind(i) for i in range(size))}}
+                store.install(it)
+                n2 += 1
+                paths = it.run()
+                if len(paths) != 1 or paths[0].end != "return" or not (isinstance(paths[0].ret, Agg) and paths[0].ret.variant == "Ok"):
+                    bad.append((has_best, list(order), "is not decided / does not complete (%s)" % [(p.end, str(p.ret)[:30]) for p in paths]))
+                    continue
+                p = paths[0]
+                tys = [ty for ty in store.types() if ty.startswith(BEST + "<")]
+                after = store.value(p, tys[0], 0) if tys else cellv       # (never looked at: still what it was)
+                held = after.fields[0] if isinstance(after, Agg) and after.fields else None
+                tag = otag(held.fields[0]) if isinstance(held, Agg) and held.variant == "Some" else None
+                if size == 0:
+                    want = {("o:%d" % size) if has_best else None}
+                else:
+                    m = min(order[:size])
+                    cands = {"o:%d" % i for i in range(size) if order[i] == m}
+                    want = cands if (not has_best or m < order[size]) else {"o:%d" % size}
+                if tag not in want:
+                    bad.append((has_best, list(order), "leaves %s as the recorded best, expected one of %s" % (tag, sorted(map(str, want)))))
+                elif [otag(x) for x in p.mstate["heap"].get("cur", ())] != ["o:%d" % i for i in range(size)] or [getattr(x, "vid", None) for x in p.mstate.get("stack", ())] != ["below", "cur"]:
+                    bad.append((has_best, list(order), "changes the population stack"))
+    ctx.count("best_update_scenarios", n2)
+    ctx.check(not bad, "C07.R2", up.key, "feeds-best-of-current-population", "existing best: %s, objective ranks (population, then the existing best) %s: BestIndividualUpdate %s" % (bad[0] if bad else ("", "", "")),
+              detail="%d scenarios" % n2, loc=up.loc())
 
 
 def r3_only_update_writes(ctx):
@@ -136,14 +173,17 @@ def r3_only_update_writes(ctx):
                 if isinstance(e, list) and e[0] == "f" and len(e) > 3 and e[3] == BEST:
                     n += 1
                     if c in ("write", "refmut", "rawptr"):
-                        inside = f.key in (BEST + "::update", BEST + "::new") or (f.impl_self_adt == BEST and f.from_expansion)
+                        inside = f.key in (BEST + "::update", BEST + "::new", "<mahf::components::evaluation::BestIndividualUpdate as mahf::components::Component>::init") or (f.impl_self_adt == BEST and f.from_expansion)
                         ctx.check(inside, "C07.R3", f.key, "inner:%s" % c, "the inner value of BestIndividual is %s outside update()/new()" % c, loc=f.loc(line))
                     break
     ctx.floor("C07.R3", "projections of BestIndividual's inner value", n, 2)
-    users = [(f, t) for (f, bb, t) in F.callers_of(lambda c: c.get("name") == "deref_mut" and (c.get("self_ty") or "").startswith(BEST + "<"))]
+    INIT_FN = "<mahf::components::evaluation::BestIndividualUpdate as mahf::components::Component>::init"   # may reset the memory in place: C07.INIT decides what it leaves
+    users = [(f, t) for (f, bb, t) in F.callers_of(lambda c: c.get("name") == "deref_mut" and (c.get("self_ty") or "").startswith(BEST + "<")) if f.key != INIT_FN]
     ctx.check(not users, "C07.R3", BEST, "deref_mut-users", "BestIndividual is mutated through DerefMut in %s" % sorted({f.key for f, t in users}))
     users = F.callers_of(lambda c: c.get("key") in ("mahf::state::registry::StateRegistry::set_value", "mahf::state::registry::StateRegistry::borrow_value_mut", "mahf::state::registry::StateRegistry::try_borrow_value_mut")
                          and (c.get("gargs") or [""])[0].startswith(BEST + "<"))
+    # (init of the update component may reset the memory in place: C07.INIT decides what init leaves behind)
+    users = [(f, b, t) for (f, b, t) in users if f.key != "<mahf::components::evaluation::BestIndividualUpdate as mahf::components::Component>::init"]
     ctx.check(not users, "C07.R3", BEST, "value-mut-users", "BestIndividual's inner value is overwritten through the registry's value accessors in %s" % sorted({f.key for f, b, t in users}))
 
 
@@ -234,18 +274,44 @@ def r5_archive(ctx):
               "archive holding elitists %s (equal numbers = equal individuals), population of %s of which elitists %s are already members: re-insertion %s" % (bad[0] if bad else ("", "", "", "")), detail="%d presence patterns" % m, loc=comp.loc())
     ctx.count("archive_reinsertion_scenarios", m)
     r7_individual_equality(ctx, "C07.R5")
-    # the update component shows the current population with its own capacity
+    # the update component shows the CURRENT population (the top one; another population lies underneath) to the state's
+    # archive, with its own capacity, exactly once - evaluated on the real population stack and the typed store
+    import statemodel
+    from c04 import StackModel
+    from collmodel import install, load
     up = F.method("mahf::components::archive::ElitistArchiveUpdate", "execute", "mahf::components::Component")
-    calls = [(b, t) for b, t in up.body.calls() if t["f"].get("key") == ARCH + "::update"]
-    good = len(calls) == 1
-    if good:
-        t = calls[0][1]
-        l1, c1, _ = origin(up.body.expr_of_op(t["args"][1]))
-        l2, c2, f2 = origin(up.body.expr_of_op(t["args"][2]))
-        names = [c for c in c1 if c not in ("deref", "deref_mut")]
-        good = names[:2] == ["current", "populations"] and l2 == ("arg", 1) and f2 == [F.field_index("mahf::components::archive::ElitistArchiveUpdate", "num_elitists")]
-    ctx.check(good, "C07.R5", up.key, "shows-current-population", "the archive is not updated from the current population with the component's capacity", loc=up.loc())
-
+    POP = "mahf::state::common::Populations"
+    sf = F.field_index(POP, "stack")
+    ki = F.field_index("mahf::components::archive::ElitistArchiveUpdate", "num_elitists")
+    bad = []
+    for cap in (0, 1, 2, 4):
+        def orc(interp, env, f, args, t, bb, path):
+            if f.get("key", "") in ("mahf::state::State::populations_mut", "mahf::state::State::populations"):
+                return Sym("populations", {sf: Sym("stack")})
+            return TOP
+        cellv = Agg("adt", ARCH, "ElitistArchive", [Vec("arch")])
+        store = statemodel.Store(F, levels=1, auto=lambda ty, cellv=cellv: {0: cellv} if ty.startswith(ARCH + "<") or ty == ARCH else None)
+        it = install(Interp(up.body, chain(orc, store, StackModel(sf), coll_oracle, std_oracle), [Sym("self", {ki: cap}), Sym("problem"), Sym("state")], facts=F,
+                            inline=lambda kk: kk.startswith(POP + "::") or statemodel.inline(kk) or INLINE(kk), max_visits=12))
+        # ranks: the population underneath holds the best individual of all - it must not be shown to the archive
+        it.init_state = {"next_vec": 0, "stack": (Vec("below"), Vec("cur")), "rank": {"o:b0": -5, "o:0": 0, "o:e0": 1, "o:1": 2},
+                         "heap": {"below": (ind("b0"),), "cur": (ind(0), ind(1)), "arch": (ind("e0"),)}}
+        store.install(it)
+        paths = it.run()
+        if len(paths) != 1 or paths[0].end != "return" or not (isinstance(paths[0].ret, Agg) and paths[0].ret.variant == "Ok"):
+            bad.append((cap, "does not complete on a single path (%s)" % [(p.end, str(p.ret)[:30]) for p in paths]))
+            continue
+        p = paths[0]
+        tys = [ty for ty in store.types() if ty.startswith(ARCH)]
+        after = store.value(p, tys[0], 0) if tys else cellv
+        v = after.fields[0] if isinstance(after, Agg) and after.fields else None
+        got = [otag(x) for x in p.mstate["heap"].get(getattr(v, "vid", None), ())]
+        want = ["o:0", "o:e0", "o:1"][:cap]
+        if sorted(map(str, got)) != sorted(want):
+            bad.append((cap, "leaves the archive holding %s; the %d best of the old archive [o:e0] and the CURRENT population [o:0, o:1] (objective order o:0 < o:e0 < o:1; o:b0, in the population underneath, is better than all) are %s" % (got, cap, want)))
+        elif [getattr(x, "vid", None) for x in p.mstate.get("stack", ())] != ["below", "cur"] or [otag(x) for x in p.mstate["heap"].get("cur", ())] != ["o:0", "o:1"]:
+            bad.append((cap, "changes the population stack"))
+    ctx.check(not bad, "C07.R5", up.key, "shows-current-population", "capacity %s: the update component %s" % (bad[0] if bad else ("", "")), loc=up.loc())
 
 
 def r7_individual_equality(ctx, rule="C07.R7"):
